@@ -23,12 +23,13 @@ type Ctx struct {
 	G    *callgraph.Graph
 	Tier string
 
-	ls        *lockset.Analysis
-	initOnly  map[*ssa.Function]bool
-	cliTypes  map[*types.Named]bool
-	cliFns    map[*ssa.Function]bool
-	srvFns    map[*ssa.Function]bool
-	dispReach map[*ssa.Function]bool
+	ls           *lockset.Analysis
+	initOnly     map[*ssa.Function]bool
+	cliTypes     map[*types.Named]bool
+	cliFns       map[*ssa.Function]bool
+	srvFns       map[*ssa.Function]bool
+	dispReach    map[*ssa.Function]bool
+	dispatchRows map[*ssa.Function][]DispatchEntry
 }
 
 // Locks returns the (cached) lockset analysis.
